@@ -643,10 +643,48 @@ class Rectangle(Shape):
                          radius=radius,
                          rotation=rotation,
                          **kwargs)
-        self._lower_coord = complex(min(first.real, second.real),
-                                    min(first.imag, second.imag))
-        self._upper_coord = complex(max(first.real, second.real),
-                                    max(first.imag, second.imag))
+        # Corners (and the center and radius they correspond to) as given
+        # at creation time. The `_lower_coord` and `_upper_coord` properties
+        # follow any later change of the `pos` and `radius` properties.
+        self._creation_lower_coord = complex(min(first.real, second.real),
+                                             min(first.imag, second.imag))
+        self._creation_upper_coord = complex(max(first.real, second.real),
+                                             max(first.imag, second.imag))
+        self._creation_pos = central_pos
+        self._creation_radius = radius
+
+    def _get_current_corner(self, creation_corner: complex) -> complex:
+        """
+        Get the current coordinate of a (non-rotated) corner of the
+        rectangle from its coordinate when the rectangle was created.
+
+        Parameters
+        ----------
+        creation_corner : complex
+            Either `_creation_lower_coord` or `_creation_upper_coord`.
+
+        Returns
+        -------
+        complex
+            The coordinate of the corner for the current `pos` and `radius`.
+        """
+        if (self.pos == self._creation_pos
+                and self.radius == self._creation_radius):
+            return creation_corner
+        offset = creation_corner - self._creation_pos
+        if self.radius != self._creation_radius:
+            offset = offset * (self.radius / self._creation_radius)
+        return cast(complex, self.pos + offset)
+
+    @property
+    def _lower_coord(self) -> complex:
+        """Lower left corner of the (non-rotated) rectangle."""
+        return self._get_current_corner(self._creation_lower_coord)
+
+    @property
+    def _upper_coord(self) -> complex:
+        """Upper right corner of the (non-rotated) rectangle."""
+        return self._get_current_corner(self._creation_upper_coord)
 
     def __repr__(self) -> str:  # pragma: no cover
         """
